@@ -59,6 +59,7 @@ type Msg struct {
 	abandoned   bool
 	respOut     any // caller's response struct
 	Dup         bool
+	Marked      bool // free for the policy: the message has been counted by a macro
 }
 
 func (m *Msg) String() string {
